@@ -33,6 +33,15 @@ ASSUME = [
 # trace monitor: the property as a predicate on the implementation's own answers
 
 FLAG = re.compile(r"(![\w-]+)")
+# facts about real addresses that are clauses of the property
+PHI_FLAGS = {
+    "!overlap": "the returned memory overlaps a payload the host still uses",
+    "!misaligned": "the returned pointer is not aligned for the element type",
+    "!outside-block": "the returned payload is not inside the block it claims",
+    "!unknown-block": "the returned pointer does not belong to any block the pool holds",
+    "!bad-index": "header index does not designate the returned payload",
+    "!corrupt": "a live element's contents were overwritten",
+}
 
 
 class Monitor:
@@ -94,16 +103,28 @@ class Monitor:
         return False
 
     def feed(self, line, ans):
-        """returns None or (signature, why)"""
+        """returns None or (signature, why).  Signatures: `phi:*` the property itself is violated on
+        this trace; `diff:*` / `harness:*` something else is off (not a clause of the property)."""
         legal = self.legal(line)
-        t = line.split()
         if not legal:
-            return None if ans == "bad-op" else ("phi:accepted-illegal", "illegal line `%s` answered `%s`" % (line, ans))
+            return None if ans == "bad-op" else ("harness:accepted-illegal", "illegal line `%s` answered `%s`" % (line, ans))
         if ans == "bad-op":
             return ("harness:rejected-legal", "legal line `%s` rejected" % line)
-        m = FLAG.search(ans)
-        if m:
-            return ("phi:flag:" + m.group(1), "`%s` answered `%s`" % (line, ans))
+        flags = FLAG.findall(ans)
+        r = self.feed_op(line, ans, "!blockcount" in flags)
+        if r:
+            return r
+        for f in flags:
+            if f in PHI_FLAGS:
+                return ("phi:flag:" + f, "`%s` answered `%s` (%s)" % (line, ans, PHI_FLAGS[f]))
+        if flags:
+            # BlockCount() disagreeing with the number of blocks really held is a wrong statistic,
+            # not a clause of C19
+            return ("diff:flag:" + flags[0], "`%s` answered `%s`" % (line, ans))
+        return None
+
+    def feed_op(self, line, ans, blockcount_unreliable):
+        t = line.split()
         kv = dict(x.split("=", 1) for x in ans.split()[1:] if "=" in x)
         if t[0] == "pool":
             self.__init__()
@@ -113,7 +134,7 @@ class Monitor:
             try:
                 b, i, blocks, eid = int(kv["b"]), int(kv["i"]), int(kv["blocks"]), int(kv["id"])
             except (KeyError, ValueError):
-                return ("phi:alloc-unreadable", "alloc answered `%s`" % ans)
+                return ("phi:alloc-unreadable", "alloc answered `%s`" % ans) if "b=?" in ans else ("harness:alloc-unreadable", ans)
             if eid != self.next_id:
                 return ("harness:id", "element ordinal %d, expected %d" % (eid, self.next_id))
             if (b, i) in self.live.values():
@@ -123,7 +144,7 @@ class Monitor:
             per = {}
             for (bb, _) in self.live.values():
                 per[bb] = per.get(bb, 0) + 1
-            if blocks > self.blocks:
+            if blocks > self.blocks and not blockcount_unreliable:
                 # a new block was acquired: only legitimate when every existing block is full
                 if len(self.live) < self.bs * self.blocks:
                     return ("phi:reuse", "BlockCount grew %d -> %d with %d live slots in %d blocks of %d" % (
@@ -144,7 +165,7 @@ class Monitor:
             try:
                 c = int(kv["count"])
             except (KeyError, ValueError):
-                return ("phi:count-unreadable", ans)
+                return ("harness:count-unreadable", ans)
             if c != len(self.live) or c != self.allocs - self.frees:
                 return ("phi:count", "Count() = %d with %d allocations - %d frees = %d live" % (
                     c, self.allocs, self.frees, len(self.live)))
@@ -171,7 +192,7 @@ class Monitor:
             try:
                 c = int(kv["count"])
             except (KeyError, ValueError):
-                return ("phi:count-unreadable", ans)
+                return ("harness:count-unreadable", ans)
             if c != 0:
                 return ("phi:count", "Count() = %d after FreeAll" % c)
             self.forget(list(self.live))
@@ -200,7 +221,7 @@ class Prop:
             k, (sig, why) = r
             if sig.startswith("phi:"):
                 return "violation", "line %d: %s" % (k, why), sig
-            return "machinery", "line %d: %s" % (k, why), sig
+            return ("correspondence" if sig.startswith("diff:") else "machinery"), "line %d: %s" % (k, why), sig
         # the implementation's trace satisfies the property; it merely is not the modelled algorithm
         i = common.first_diff(impl, model)
         a = impl[i] if i is not None and i < len(impl) else "<missing>"
@@ -455,6 +476,7 @@ def check(ctx):
         common.leanchecker(ctx, PROPS_MODULE)
     exe = build(ctx)
     d = CovDiff(ctx, prop, exe, AREA)
+    d.base_timeout = 5          # the harness needs < 1 s for 10^5 lines; a hang is a mutant's FreeAll
     bad = d.run_batch(corpus_cases())
     rng = ctx.rng("random")
     quick = ctx.tier == "quick"
